@@ -156,10 +156,10 @@ func cmdCheck(args []string) {
 		// the tree does not load/type-check: undecided
 		die(2, "cannot load %s: %v", *repo, err)
 	}
-	cfg := &SolverCfg{QuickMs: 3000, FullMs: 10000, CacheDir: filepath.Join(*vdir, ".cache"), Workers: 16,
+	cfg := &SolverCfg{QuickMs: 3000, FullMs: 30000, CacheDir: filepath.Join(*vdir, ".cache"), Workers: 16,
 		KeepDir: filepath.Join(*vdir, "out", *prop)}
 	if *tier == "thorough" {
-		cfg.FullMs = 60000
+		cfg.FullMs = 120000
 		cfg.Confirm = true
 	}
 	os.RemoveAll(cfg.KeepDir)
@@ -250,9 +250,12 @@ func cmdCheck(args []string) {
 		}
 	}
 	dischargeAll(units, cfg, func(o *Oblig) bool {
-		if pc.OnlySel && !o.Cover && !selected(o, puOf[unitOf[o]], *prop) {
-			o.Result = "not-attempted"
-			return false
+		if !o.Cover && !selected(o, puOf[unitOf[o]], *prop) {
+			if pc.OnlySel {
+				o.Result = "not-attempted"
+				return false
+			}
+			o.Short = true // not this property's obligation: one short attempt, for the evidence list
 		}
 		return true
 	})
